@@ -47,9 +47,9 @@ type ClobberCase struct {
 	// (resource fault: the open fails for another reason than "exists").
 	FDExhaust bool
 	Pre       int
-	Random  []byte
-	PreData gen.DataSpec // for PIndex
-	Data    gen.DataSpec // what the writer holds
+	Random    []byte
+	PreData   gen.DataSpec // for PIndex
+	Data      gen.DataSpec // what the writer holds
 }
 
 func (c *ClobberCase) Summary() string {
@@ -453,6 +453,9 @@ func drawRead(t *rapid.T) *ReadCase {
 	usedDSN := map[string]bool{}
 	for i := 0; i < ns; i++ {
 		oc := fix.OpenCfg{Preload: rapid.Bool().Draw(t, "preload"), CacheCap: rapid.SampledFrom([]int64{-1, -1, 0, 1000, 1 << 22}).Draw(t, "cap")}
+		if rapid.IntRange(0, 3).Draw(t, "alias") == 0 {
+			oc.Via = rapid.IntRange(1, fix.NVia-1).Draw(t, "via")
+		}
 		drv := rapid.Bool().Draw(t, "driver")
 		if drv && usedDSN[oc.String()] {
 			drv = false // one sql.DB per DSN per case (re-opening a DSN is C17's subject)
